@@ -68,11 +68,30 @@ def _retry_then_gc_after(k):
     return mk
 
 
+def _gc_after_k(k):
+    """transaction 1 passes k gated operations of its commit, then the WHOLE collection runs, then the rest"""
+    def mk(rng):
+        def choose(s, ready):
+            n1 = len([1 for a, _w in s.trace if a == 1])
+            if n1 < k and 1 in ready:
+                return 1
+            if 9 in ready:
+                return 9
+            return sorted(ready)[0]
+        return choose
+    return mk
+
+
 def run_case(ctx, rep, case, base, model_ok):
     rng = ctx.rng("case", case["id"])
     path = os.path.join(base, f"t{case['id']}")
     t0 = tablekit.create(path)
     t0.append_records(tablekit.rows(2, tag="init"))
+    if case.get("kind") == "delete-partial":
+        with t0.new_transaction() as tx0:
+            tx0.append_data(tablekit.rows(1, start=60, tag="m1_"))
+            tx0.append_data(tablekit.rows(1, start=61, tag="m2_"))
+            tx0.commit()
     # an old orphan that SHOULD be collected (non-vacuity)
     with open(os.path.join(path, "data/old_orphan.parquet"), "wb") as f:
         f.write(b"x")
@@ -90,15 +109,51 @@ def run_case(ctx, rep, case, base, model_ok):
             ids[rel] = len(ids) + 1
         return ids[rel]
     reach0 = reader.reachable(path)
-    init_tok = ",".join(f"{fid(r)}/{1 if (time.time() - store.mtime(r)) * 1000 > GRACE_MS else 0}" for r in sorted(init_files)) or "-"
+    init_tok = ",".join(f"{fid(r)}/{1 if (time.time() - store.mtime(r)) * 1000 > case.get("grace", GRACE_MS) else 0}" for r in sorted(init_files)) or "-"
     committed_tok = ",".join(str(fid(r)) for r in sorted(reach0 & init_files)) or "-"
     # transactions: prepared (marker + data file written, possibly aged) before the scheduled part
     handles, txs, prefix = {}, {}, []
     for a in range(1, case["txs"] + 1):
         h = tablekit.load(path)
         tx = h.new_transaction().begin()
-        tx.append_data(tablekit.rows(1, start=1000 * a, tag=f"t{a}_"))
-        rel = tx._written_files[0].lstrip("/")
+        if case.get("marker_fault"):
+            # the FIRST in-flight marker write of this transaction fails (EIO): registering the marker is what protects the file
+            mf = {"n": 0}
+            o_wf = h.storage.write_file
+
+            def failing_wf(p_, *a_, _o=o_wf, **k_):
+                if mf["n"] == 0 and str(p_).lstrip("/").startswith("metadata/inflight"):
+                    mf["n"] = 1
+                    raise OSError(5, "injected EIO on the in-flight marker write")
+                return _o(p_, *a_, **k_)
+            h.storage.write_file = failing_wf
+            try:
+                tx.append_data(tablekit.rows(1, start=1000 * a, tag=f"t{a}_"))
+            except OSError:
+                rep.evaluations += 1
+                rep.distribution["marker-fault:append-refused"] += 1
+                shutil.rmtree(path, ignore_errors=True)
+                return
+            finally:
+                del h.storage.write_file
+        elif case.get("kind") == "prebuilt-file":
+            # a data file built OUTSIDE the library (already older than the grace period) queued through the file-level API
+            import pyarrow as pa
+            import pyarrow.parquet as pq
+            from datashard.data_structures import DataFile, FileFormat
+            sch_ = h.file_manager.data_file_manager.create_arrow_schema(tablekit.schema())
+            fp_ = os.path.join(path, "data", f"prebuilt_{a}.parquet")
+            pq.write_table(pa.table({"id": [1000 * a], "name": [f"ext{a}"]}, schema=sch_), fp_)
+            _age(path, f"data/prebuilt_{a}.parquet")
+            tx.append_files([DataFile(file_path=f"/data/prebuilt_{a}.parquet", file_format=FileFormat.PARQUET, partition_values={},
+                                      record_count=1, file_size_in_bytes=os.path.getsize(fp_))])
+            tx._written_files.append(f"data/prebuilt_{a}.parquet") if False else None
+        elif case.get("kind") == "delete-partial":
+            tx.delete_files(["/" + tablekit.data_paths(h)[-1]])
+            tx.append_data(tablekit.rows(1, start=1000 * a, tag=f"t{a}_"))
+        else:
+            tx.append_data(tablekit.rows(1, start=1000 * a, tag=f"t{a}_"))
+        rel = tx._written_files[0].lstrip("/") if tx._written_files else f"data/prebuilt_{a}.parquet"
         old = case["aged"][a - 1]
         if old:
             _age(path, rel)
@@ -124,7 +179,7 @@ def run_case(ctx, rep, case, base, model_ok):
         return fn
     try:
         with c01._NoBackoff(S):
-            res = S.run({**{a: tx_body(a) for a in txs}, 9: lambda: g.garbage_collect(grace_period_ms=GRACE_MS)})
+            res = S.run({**{a: tx_body(a) for a in txs}, 9: lambda: g.garbage_collect(grace_period_ms=case.get("grace", GRACE_MS))})
     finally:
         restore()
     rep.evaluations += 1
@@ -148,9 +203,11 @@ def run_case(ctx, rep, case, base, model_ok):
         sig = "C06:committed-file-deleted-by-concurrent-gc" if "missing" in p_ else "C06:" + p_.split(":")[0].replace(" ", "-")[:50]
         if "missing" in p_ and any(case["aged"]):
             sig = "C06:commit-between-metadata-read-and-marker-load"
+        if case.get("kind") == "prebuilt-file":
+            sig = "C06:prebuilt-file-of-an-open-transaction-has-no-marker"
         rep.violate(sig, f"{case['txs']} tx, aged {case['aged']}: {p_}", case_rec)
     # ---------------- correspondence: abstract trace → model
-    if model_ok:
+    if model_ok and not case.get("no_model"):
         toks = list(prefix)
         state = {a: "active" for a in txs}
         gc_seen = {"meta": False, "markers": False}
@@ -211,6 +268,59 @@ def run_case(ctx, rep, case, base, model_ok):
     shutil.rmtree(path, ignore_errors=True)
 
 
+def _two_collections(ctx, rep, base):
+    """one long transaction, TWO collections: the first while the data file is being written (its marker exists, the file does not
+    yet), the second — after the file has aged past the grace period — inside the commit, before the pointer moves"""
+    for when2 in ("before-metadata-commit", "before-manifest-list"):
+        path = os.path.join(base, f"two-{when2}")
+        t0 = tablekit.create(path)
+        t0.append_records(tablekit.rows(2, tag="init"))
+        h, g = tablekit.load(path), tablekit.load(path)
+        tx = h.new_transaction().begin()
+        dfm = h.file_manager.data_file_manager
+        o_write = dfm.write_data_file
+        log = []
+
+        def hooked_write(*a, **k):
+            log.append(("gc1", g.garbage_collect(grace_period_ms=0)))
+            return o_write(*a, **k)
+        dfm.write_data_file = hooked_write
+        try:
+            tx.append_data(tablekit.rows(1, start=1000, tag="long_"))
+        finally:
+            dfm.write_data_file = o_write
+        rel = tx._written_files[0].lstrip("/")
+        _age(path, rel)
+        target = h.metadata_manager if when2 == "before-metadata-commit" else h.file_manager
+        name = "commit" if when2 == "before-metadata-commit" else "create_manifest_list_file"
+        o2 = getattr(target, name)
+        fired = {"n": 0}
+
+        def hooked2(*a, _o=o2, **k):
+            if fired["n"] == 0:
+                fired["n"] = 1
+                log.append(("gc2", g.garbage_collect(grace_period_ms=3_600_000)))
+            return _o(*a, **k)
+        setattr(target, name, hooked2)
+        raised = None
+        try:
+            tx.commit()
+        except Exception as e:      # noqa: BLE001
+            raised = f"{type(e).__name__}: {str(e)[:80]}"
+        finally:
+            setattr(target, name, o2)
+        rep.evaluations += 1
+        rep.nontrivial(["two-collections", when2])
+        case = {"kind": "two-collections", "second": when2}
+        try:
+            reader.view(path)
+        except reader.Broken as e:
+            rep.violate("C06:committed-file-deleted-by-concurrent-gc", f"collection while the data file was being written, then (file aged 2 h) {when2}: {e}", case)
+        if raised:
+            rep.violate("C06:transaction-raised", f"two collections ({when2}): commit raised {raised}", case)
+        shutil.rmtree(path, ignore_errors=True)
+
+
 def cases(ctx):
     rng = ctx.rng("cases")
     out = [{"txs": 1, "aged": [True], "rollback": [False], "chooser": _collector_first_reads(None)},
@@ -233,7 +343,8 @@ def run(ctx, model_ok):
     rep.rule = ("one real garbage_collect(grace 60 s) × 1–2 real append transactions (data files aged 2 h on a coin flip; 15 % roll back) "
                 "interleaved at storage-operation granularity; directed schedules placing the whole commit between the collector's two reads "
                 "first, then a commit that loses an OCC race and retries with the WHOLE collection placed after each (quick: every 2nd) of its gated "
-                "operations. Oracle: every file of every snapshot of the final metadata exists; correspondence: same deleted set as the model.")
+                "operations; with grace 0 a whole collection after each gated operation of an append, of a partial delete (rewritten manifest) and of "
+                "an append whose first marker write failed, of an append of a PRE-BUILT aged file (file-level API; also with the 60 s grace). Oracle: every file of every snapshot of the final metadata exists; correspondence: same deleted set as the model.")
     base = scratch_dir("c06-")
     try:
         # directed: a commit that loses the race and retries, with a whole collection placed after each of its gated operations
@@ -250,6 +361,24 @@ def run(ctx, model_ok):
             if k >= c.get("tx1_gates", 0):
                 break
             k += 1 if (ctx.thorough or ctx.intensify) else 2
+        # grace 0: EVERYTHING unreachable and unprotected goes — a whole collection after each gated operation of one commit
+        # (append / partial delete that rewrites a manifest / append whose first marker write failed)
+        for variant in ({"kind": "append"}, {"kind": "delete-partial"}, {"kind": "append", "marker_fault": True}, {"kind": "prebuilt-file"},
+                        {"kind": "prebuilt-file", "grace": GRACE_MS}):
+            k = 0
+            while True:
+                c = {"id": cid, "txs": 1, "aged": [True], "rollback": [False], "chooser": _gc_after_k(k), "grace": 0, "no_model": True, **variant}
+                cid += 1
+                try:
+                    run_case(ctx, rep, c, base, model_ok)
+                    rep.distribution["directed-grace0"] += 1
+                except sched.Stuck as e:
+                    rep.notes.append(f"grace-0 case {variant} k={k} stuck: {e}")
+                    break
+                if k >= c.get("tx1_gates", 0):
+                    break
+                k += 1 if (ctx.thorough or ctx.intensify) else 2
+        _two_collections(ctx, rep, base)
         for c in cases(ctx):
             try:
                 run_case(ctx, rep, c, base, model_ok)
